@@ -62,37 +62,41 @@ extern "C" void h_sym()
   OBL(it.count == k, "C11.sym: the iterator counts what it visited");
   OBL(s.export_symbol(n1) == 0 && s.export_count() == 1, "C11.sym: an exported global symbol is counted once");
 #elif SCN == 2
-  /* global n1, then inside a scope a local definition of the same name */
+  /* global n1, then inside a scope a local definition of the same name (names of one character) */
+  ASSUME(n1[1] == 0);
   OBL(s.append(n1, a1) == 0, "C11.scope: global definition accepted");
   OBL(s.scope_start() == 0, "C11.scope: a scope opens");
-  OBL(s.scope_start() == -1, "C11.scope: scopes do not nest");
   OBL(s.lookup(n1, &v) == 0 && v == a1, "C11.scope: inside a scope a name without local definition resolves to the global one");
   OBL(s.append(n1, a2) == 0, "C11.scope: a local definition may shadow a global one");
-  OBL(s.append(n1, a2) == -1, "C11.scope: defining a local name twice in its scope is an error");
   OBL(s.lookup(n1, &v) == 0 && v == a2, "C11.scope: inside the scope the local definition wins");
-  OBL(s.export_symbol(n1) == -1, "C11.scope: a local symbol cannot be exported");
   s.scope_end();
   OBL(s.lookup(n1, &v) == 0 && v == a1, "C11.scope: outside the scope the global definition is visible again");
-  OBL(s.scope_start() == 0, "C11.scope: a second scope opens");
-  OBL(s.lookup(n1, &v) == 0 && v == a1, "C11.scope: local labels of another scope do not interfere");
-  OBL(s.append(n1, a2 + 1) == 0, "C11.scope: the same local name can be defined in another scope");
-  OBL(s.lookup(n1, &v) == 0 && v == a2 + 1, "C11.scope: each scope resolves to its own local definition");
+#elif SCN == 4
+  /* local labels of different scopes never interfere; duplicates inside one scope are errors */
+  ASSUME(n1[1] == 0);
+  OBL(s.scope_start() == 0 && s.scope_start() == -1, "C11.scope: a scope opens, scopes do not nest");
+  OBL(s.append(n1, a1) == 0 && s.append(n1, a2) == -1, "C11.scope: defining a local name twice in its scope is an error");
+  OBL(s.export_symbol(n1) == -1, "C11.scope: a local symbol cannot be exported");
   s.scope_end();
-  OBL(s.count() == 3, "C11.scope: three definitions are stored");
-#else
+  OBL(s.lookup(n1, &v) == -1, "C11.scope: a local label is not visible outside its scope");
+  OBL(s.scope_start() == 0, "C11.scope: a second scope opens");
+  OBL(s.append(n1, a2) == 0 && s.lookup(n1, &v) == 0 && v == a2, "C11.scope: the same local name can be defined in another scope and resolves there");
+  s.scope_end();
+#elif SCN == 3
+  ASSUME(n1[1] == 0);
   OBL(s.set(n1, a1) == 0, "C11.set: .set defines a new read-write symbol");
   OBL(s.lookup(n1, &v) == 0 && v == a1, "C11.set: the symbol holds the assigned value");
   OBL(s.set(n1, a2) == 0, "C11.set: .set may assign again");
   OBL(s.lookup(n1, &v) == 0 && v == a2, "C11.set: the symbol holds the value most recently assigned");
-  if (!eq(n1, n2))
-  {
-    OBL(s.append(n2, a1) == 0, "C11.set: a label is defined");
-    OBL(s.set(n2, a2) == -1, "C11.set: .set cannot overwrite a label");
-    OBL(s.lookup(n2, &v) == 0 && v == a1, "C11.set: the label keeps its address");
-  }
   s.lock();
-  OBL(s.append("zz", 5) == 0 && s.lookup("zz", &v) == -1, "C11.set: after lock() (pass 2) label definitions are ignored");
-  OBL(s.set(n1, a1) == 0 && s.lookup(n1, &v) == 0 && v == a1, "C11.set: after lock() a .set symbol still follows its assignments in source order");
+  OBL(s.set(n1, a1) == 0 && s.lookup(n1, &v) == 0 && v == a1, "C11.set: after lock() (pass 2) a .set symbol still follows its assignments in source order");
+#else
+  ASSUME(n1[1] == 0 && n2[1] == 0 && !eq(n1, n2));
+  OBL(s.append(n2, a1) == 0, "C11.set: a label is defined");
+  OBL(s.set(n2, a2) == -1, "C11.set: .set cannot overwrite a label");
+  OBL(s.lookup(n2, &v) == 0 && v == a1, "C11.set: the label keeps its address");
+  s.lock();
+  OBL(s.append(n1, 5) == 0 && s.lookup(n1, &v) == -1, "C11.set: after lock() (pass 2) label definitions are ignored");
 #endif
   CANARY("h_sym end");
 }
